@@ -330,6 +330,44 @@ pub fn run(ctx: &mut Ctx) {
                         ctx.violation("soundness/foreign-proof", "a proof made for another envelope was judged differently from the reference", replay());
                     }
                 }
+                // forged proofs with ANOTHER root that mention the verifier's root digest next to the targets, and
+                // the genuine proof wrapped once; and every proof offered to verifiers that hold more than the
+                // root digest (the whole envelope, a partly revealed copy): the verdict depends on the proof only
+                {
+                    let root_ph = gen::elided_with_digest(&t.digest);
+                    let t0 = *targets.iter().next().unwrap();
+                    let mut forged: Vec<(&str, Envelope)> = vec![
+                        ("root-as-predicate", Envelope::new_assertion(root_ph.clone(), gen::elided_with_digest(&t0))),
+                        ("genuine-wrapped", p.wrap_envelope()),
+                    ];
+                    let mut note = Envelope::new("note").add_assertion("about", root_ph.clone());
+                    for d in targets.iter() {
+                        note = note.add_assertion("mentions", gen::elided_with_digest(d));
+                    }
+                    forged.push(("note-mentioning-root-and-targets", note));
+                    forged.push(("garbage", Envelope::new(format!("garbage-{}", case))));
+                    if let Some(fp) = other_env.proof_contains_set(&dset(&[gen::root_digest(&other_env)].into_iter().collect())) {
+                        forged.push(("foreign", fp));
+                    }
+                    forged.push(("genuine", p.clone()));
+                    let partly = e.elide_revealing_set(&dset(&reveal));
+                    let holders: Vec<(&str, Envelope)> = vec![("root-only", verifier.clone()), ("whole-envelope", e.clone()), ("partly-revealed", partly), ("the-proof-itself", p.clone())];
+                    for (fl, fpv) in &forged {
+                        let want = ref_confirm(&t.digest, &targets, &tree_of(fpv));
+                        for (hl, h) in &holders {
+                            ctx.eval();
+                            ctx.count("forged_proofs_and_content_holding_verifiers");
+                            match trap::guard(|| h.confirm_contains_set(&lib_targets, fpv)) {
+                                Ok(got) => {
+                                    if got != want {
+                                        ctx.violation(&format!("soundness/{}/{}", fl, hl), &format!("proof ({}) offered to a verifier holding {}: verifier={} reference={}", fl, hl, got, want), J::obj(vec![("envelope_hex", jhex(&e)), ("proof_hex", jhex(fpv)), ("targets", J::Arr(targets.iter().map(|d| J::s(hex::encode(d))).collect()))]));
+                                    }
+                                }
+                                Err(pn) => ctx.violation(&format!("confirm-panic/{}", pn.signature()), &format!("{:?}", pn), replay()),
+                            }
+                        }
+                    }
+                }
                 // other target sets against the genuine proof
                 ctx.eval();
                 ctx.count("other_target_sets");
